@@ -1,6 +1,6 @@
 (* C07 — Inbound QoS2 is delivered exactly once per exchange.  Statements only; proofs in
-   Conn/Session.v, Conn/Qos2Inv.v and Conn/Qos2Inv2.v.  Nothing else may be added to this file. *)
-From MQ Require Import Base.Prelude Alloc.Alloc Alloc.AllocProofs Conn.Types Conn.ConnRecord Conn.Step Corr.ConnTrace Conn.Run Conn.Session Conn.Qos2Inv Conn.Qos2Inv2.
+   Conn/Session.v, Conn/Qos2Inv.v, Conn/Qos2Inv2.v, Conn/Qos2Dup.v and Conn/Qos2Sub.v.  Nothing else may be added to this file. *)
+From MQ Require Import Base.Prelude Alloc.Alloc Alloc.AllocProofs Conn.Types Conn.ConnRecord Conn.Step Corr.ConnTrace Conn.Run Conn.Session Conn.Qos2Inv Conn.Qos2Inv2 Conn.Qos2Dup Conn.Qos2Sub.
 
 (* v3.1.1, every state: a retransmission of a QoS 2 PUBLISH whose identifier is in the handled
    set is not notified again, and the identifier stays handled *)
@@ -63,10 +63,84 @@ Theorem C07_dup_after_history_not_notified_v311 : forall x g ops c c' p,
 Proof. exact dup_after_history_not_notified_v311. Qed.
 Print Assumptions C07_dup_after_history_not_notified_v311.
 
-(* C07_partial: what is still decided by the monitor mon_c07 (a ghost set of notified-and-unreleased
-   identifiers built from the implementation's events) and the correspondence rather than a theorem:
-   "none swallowed" (a first PUBLISH is notified) over histories, and the v5.0 duplicate path, whose
-   per-step facts are in Conn/Session.v. *)
+(* BOTH VERSIONS, EVERY STATE, PER CALL (Conn/Qos2Dup.v).  A first QoS 2 PUBLISH (identifier not handled)
+   is notified exactly once and becomes handled; a retransmission (identifier handled) is not notified,
+   stays handled and — on an established connection — is answered with PUBREC whether or not automatic
+   responses are on (v5.0: unless the call reports an error, e.g. a PUBREC that does not fit the peer's
+   Maximum Packet Size, an invalid Topic Alias, Receive Maximum exceeded). *)
+Theorem C07_first_notified_v311 : forall g c p,
+  k_qos p = 2 -> mem (k_pid p) (c_qos2 c) = false ->
+  match recv_publish_v311 g c (PROk p) with
+  | Ok (c', e) => notifies e = [p] /\ mem (k_pid p) (c_qos2 c') = true
+  | Panic _ => True
+  end.
+Proof. exact qos2_first_notified_v311. Qed.
+Print Assumptions C07_first_notified_v311.
+Theorem C07_first_notified_v5 : forall g c p,
+  k_qos p = 2 -> mem (k_pid p) (c_qos2 c) = false ->
+  match recv_publish_v5 g c (PROk p) with
+  | Ok (c', e) => errors e = [] -> exists q, notifies e = [q] /\ k_pid q = k_pid p /\ mem (k_pid p) (c_qos2 c') = true
+  | Panic _ => True
+  end.
+Proof. exact qos2_first_notified_v5. Qed.
+Print Assumptions C07_first_notified_v5.
+Theorem C07_dup_answered_v311 : forall g c p,
+  k_qos p = 2 -> mem (k_pid p) (c_qos2 c) = true -> status_eqb (c_status c) Connected = true ->
+  match recv_publish_v311 g c (PROk p) with
+  | Ok (c', e) => notifies e = [] /\ mem (k_pid p) (c_qos2 c') = true /\
+                  (errors e = [] -> exists q, In q (sends e) /\ k_type q = T_PUBREC /\ k_pid q = k_pid p)
+  | Panic _ => True
+  end.
+Proof. exact qos2_dup_answered_v311. Qed.
+Print Assumptions C07_dup_answered_v311.
+Theorem C07_dup_answered_v5 : forall g c p,
+  k_qos p = 2 -> mem (k_pid p) (c_qos2 c) = true ->
+  match recv_publish_v5 g c (PROk p) with
+  | Ok (c', e) => notifies e = [] /\ mem (k_pid p) (c_qos2 c') = true /\
+                  (status_eqb (c_status c) Connected = true -> errors e = [] ->
+                   exists q, In q (sends e) /\ k_type q = T_PUBREC /\ k_pid q = k_pid p)
+  | Panic _ => True
+  end.
+Proof. exact qos2_dup_answered_v5. Qed.
+Print Assumptions C07_dup_answered_v5.
+
+(* THE CONVERSE OVER HISTORIES (Conn/Qos2Sub.v, a walk through every function of the model): an identifier
+   ENTERS the handled set only through a received packet that carries it or through
+   restore_qos2_publish_handled; every other call leaves a not-handled identifier not handled.  So after
+   ANY history through which x could not enter — in particular any history of a fresh object in which no
+   received packet carried x — a QoS 2 PUBLISH with identifier x is notified: none is swallowed. *)
+Theorem C07_step_enters_only : forall x g c o,
+  enters x o = false ->
+  match step g c o with Ok (c', _, _) => mem x (c_qos2 c') = true -> mem x (c_qos2 c) = true | Panic _ => True end.
+Proof. exact step_enters_only. Qed.
+Print Assumptions C07_step_enters_only.
+Theorem C07_not_handled_until_entered : forall x g ops c,
+  mem x (c_qos2 c) = false -> no_entry x ops = true ->
+  match run_state g c ops with Some c' => mem x (c_qos2 c') = false | None => True end.
+Proof. exact not_handled_until_entered. Qed.
+Print Assumptions C07_not_handled_until_entered.
+Theorem C07_first_after_history_notified_v311 : forall x g ops c c' p,
+  mem x (c_qos2 c) = false -> no_entry x ops = true -> run_state g c ops = Some c' -> k_qos p = 2 -> k_pid p = x ->
+  match recv_publish_v311 g c' (PROk p) with
+  | Ok (c'', e) => notifies e = [p] /\ mem x (c_qos2 c'') = true
+  | Panic _ => True
+  end.
+Proof. exact first_after_history_notified_v311. Qed.
+Print Assumptions C07_first_after_history_notified_v311.
+Theorem C07_first_after_history_notified_v5 : forall x g ops c c' p,
+  mem x (c_qos2 c) = false -> no_entry x ops = true -> run_state g c ops = Some c' -> k_qos p = 2 -> k_pid p = x ->
+  match recv_publish_v5 g c' (PROk p) with
+  | Ok (c'', e) => errors e = [] -> exists q, notifies e = [q] /\ k_pid q = x /\ mem x (c_qos2 c'') = true
+  | Panic _ => True
+  end.
+Proof. exact first_after_history_notified_v5. Qed.
+Print Assumptions C07_first_after_history_notified_v5.
+
+(* C07_partial: on the MODEL side nothing of the property is left to the monitor alone: handled <=> (notified
+   or restored) and not released since, by C07_handled_until_released and C07_not_handled_until_entered,
+   and what a call does in either case by the four per-call theorems.  The implementation is judged by
+   mon_c07 (a ghost set of notified-and-unreleased identifiers built from its events) and tied to the model
+   by the correspondence. *)
 
 Example C07_nonvacuous :
   let g := mkCfg RServer 65535 2 in
@@ -86,4 +160,20 @@ Example C07_history_nonvacuous :
   let ops := [OAcquire; OSetAutoPub true; OTimer TPingreqSend; OClosed; ORelease 1] in
   mem 7 (c_qos2 c) = true /\ quiet_history 7 g c ops /\
   match run_state g c ops with Some c' => c_status c' = Disconnected | None => False end.
+Proof. vm_compute. repeat split; reflexivity. Qed.
+
+(* the converse history theorem's premises are satisfiable and the conclusion is not trivial: after a history
+   with other traffic (identifier 9 received, released, a persistent close) a PUBLISH with identifier 7 is a
+   first one and is notified *)
+Example C07_converse_nonvacuous :
+  let g := mkCfg RServer 65535 2 in
+  let c := set_need_store (set_qos2 (set_status (conn_new g V311) Connected) [9]) true in
+  let p9 := mkPkt 6 V311 9 0 false false [] None 0 0 4 false 0 false 0 None None None None None in
+  let p := mkPkt 3 V311 7 2 false false [116] None 0 0 8 false 0 false 0 None None None None None in
+  let ops := [OAcquire; ORecv [98; 2; 0; 9] (PROk p9); OTimer TPingreqSend; OClosed] in
+  mem 7 (c_qos2 c) = false /\ no_entry 7 ops = true /\
+  match run_state g c ops with
+  | Some c' => match recv_publish_v311 g c' (PROk p) with Ok (_, e) => notifies e = [p] | Panic _ => False end
+  | None => False
+  end.
 Proof. vm_compute. repeat split; reflexivity. Qed.
